@@ -599,6 +599,36 @@ func c18Explain(ctx *Ctx, j *c18job, problem string) string {
 	if j.doc == nil || !strings.HasPrefix(problem, "exit status 0") {
 		return ""
 	}
+	// recorded finding untyped-composition-definition: a definition (or the items of a definition that is an array, at
+	// any depth) that consists of allOf/anyOf only is taken for "anything"; its members are never generated, so a fault
+	// inside them goes unnoticed. Path shape: (definitions|$defs)/<name>/(items/)*(anyOf|allOf)/<n>/...
+	if ctx.Known.Has("untyped-composition-definition") && len(j.path) >= 4 {
+		if k0, ok := j.path[0].(string); ok && (k0 == "definitions" || k0 == "$defs") {
+			i := 2
+			for i < len(j.path) && j.path[i] == "items" {
+				i++
+			}
+			if i < len(j.path) {
+				if k, ok := j.path[i].(string); ok && (k == "anyOf" || k == "allOf") {
+					// the schema that holds the composition has no type / properties / enum of its own
+					var cur any = j.doc
+					for _, seg := range j.path[:i] {
+						if o, isObj := cur.(jsonx.Obj); isObj {
+							cur, _ = o.Get(seg.(string))
+						}
+					}
+					if o, isObj := cur.(jsonx.Obj); isObj {
+						_, hasT := o.Get("type")
+						_, hasP := o.Get("properties")
+						_, hasE := o.Get("enum")
+						if !hasT && !hasP && !hasE {
+							return "untyped-composition-definition"
+						}
+					}
+				}
+			}
+		}
+	}
 	// recorded finding allof-mixed-branches-unchecked: the fault sits below an allOf that has a branch which is not
 	// an object schema; the tool then merges to interface{} without generating the branches
 	if ctx.Known.Has("allof-mixed-branches-unchecked") {
